@@ -82,6 +82,20 @@ theorem isAlign_stepOp (b : Bag) (op : Op) (hne : op ≠ .unalign) : (stepOp b o
     · split
       · rfl
       · rename_i r hr; exact (sameShape_replaceMatchChars hr).isAlign
+  | mask refseq start len mr nogap noref =>
+    simp only [stepOp]
+    split
+    · rfl
+    · split
+      · rfl
+      · rename_i r hr; exact (sameShape_maskBag hr).isAlign
+  | maskOcc refseq maxOcc mr =>
+    simp only [stepOp]
+    split
+    · rfl
+    · split
+      · rfl
+      · rename_i r hr; exact (sameShape_maskOccBag hr).isAlign
   | add n s => exact isAlign_addSeqAs _ b n s
   | ignore p => rfl
   | clear => rfl
